@@ -4,6 +4,7 @@ pub mod c08;
 pub mod c09;
 pub mod c10;
 pub mod c11;
+pub mod c16;
 pub mod c21;
 pub mod dbg;
 pub mod c31;
@@ -18,6 +19,7 @@ pub fn dispatch(id: &str, args: &Args) -> i32 {
         "C09" => drive_main(&c09::C09, args),
         "C10" => drive_main(&c10::C10, args),
         "C11" => drive_main(&c11::C11, args),
+        "C16" => drive_main(&c16::C16, args),
         "C21" => drive_main(&c21::C21, args),
         "C31" => drive_main(&c31::C31, args),
         "C32" => drive_main(&c32::C32, args),
